@@ -52,6 +52,9 @@ func checkC05(c *Ctx, r *Report) {
 	rfc3597Whole(c, r, "C05.R2.rfc3597-whole")
 	endingConsumesLine(c, r, "C05.R3.ending-consumes-line")
 	namesEscaped(c, r, "C05.R3.names-escaped", "a name holding a blank, a semicolon, a quote or a non-printable octet (which PackDomainName accepts and every other type prints escaped) prints as text that is not that name: the record does not read back, or reads back as a different record")
+	textAllPaths(c, r, "C05.R1.string-all-paths", "C05.R1.parse-all-paths")
+	zeroPadded(c, r, "C05.R3.zero-padded")
+	parseNarrowing(c, r, "C05.R6.parse-narrowing")
 }
 
 // c05R5: numeric limit agreement: the TTL parser accepts exactly the range the 32-bit header field (and its printer) has.
